@@ -464,7 +464,7 @@ CHECKS = {
                      'longer histories are not explored'],
     ),
     'C09': dict(
-        cells=DIRECT_INV + LOOSE_INV + DIRECT_REACH + CDIRECT + IMPORT_DEDUP + SINGLE,
+        cells=DIRECT_INV + LOOSE_INV + DIRECT_REACH + CDIRECT + IMPORT_DEDUP + SINGLE + PAGING,
         functions=F_WRITE + ['Container.import_objects', 'Container.add_streamed_object_to_pack'],
         assumptions=['duplicates of already packed content at any batch position, duplicate inside the batch (plain and '
                      'compress=True), known content re-added loose (existing copy loose/packed/both, possibly damaged, '
